@@ -436,7 +436,16 @@ pub fn run_property(def: &PropertyDef, cfg: &RunCfg, only_sub: Option<&str>) -> 
 			eprintln!("INCONCLUSIVE property={} sub={} {}", def.id, sub.name, why);
 			inconclusive = true;
 		}
-		if let Some(f) = &res.failure {
+		// a failure of the harness itself (its own panic, an INTERNAL: self-check) is never a violation
+		let internal = res.failure.as_ref().map_or(false, |f| {
+			f.reason.starts_with("INTERNAL") || (f.reason.starts_with("panic:") && f.reason.contains(" @ src/"))
+		});
+		if internal {
+			let f = res.failure.as_ref().unwrap();
+			eprintln!("INCONCLUSIVE property={} sub={} harness self-check failed: {}", def.id, sub.name, f.reason);
+			eprintln!("--- case: {}", f.case);
+			inconclusive = true;
+		} else if let Some(f) = &res.failure {
 			violations += 1;
 			let dir = format!("{}/replays", out_dir());
 			let _ = std::fs::create_dir_all(&dir);
